@@ -300,13 +300,16 @@ func ruleR18_11(p *Program, r *Report) {
 						continue
 					}
 					for _, f := range dominatingFacts(ret) {
-						if f.Y == nil || f.Op.String() != "==" {
+						if f.Y == nil {
 							continue
 						}
 						if call, isC := f.X.(*ssa.Call); isC {
 							if bi, isB := call.Common().Value.(*ssa.Builtin); isB && bi.Name() == "len" && call.Common().Args[0] == ssa.Value(par) {
-								if k, isK := constInt(f.Y); isK && k == 0 {
-									guard = true
+								if k, isK := constInt(f.Y); isK {
+									op := f.Op.String()
+									if (op == "==" && k == 0) || (op == "<" && k == 1) || (op == "<=" && k == 0) {
+										guard = true
+									}
 								}
 							}
 						}
